@@ -426,3 +426,24 @@ Proof.
   - intros _. rewrite forallb_forall in Hst. specialize (Hst _ Hk). destruct (t_st t); try discriminate. reflexivity.
   - exfalso. apply Hne. reflexivity.
 Qed.
+
+(** * When the run ends: every live actor is idle with an empty mailbox and still referenced *)
+Lemma quiesce_actors s s' :
+  listed s -> step s EvQuiesce = Acc s' ->
+  forall a x, actors s a = Some x -> a_phase x <> PhDone ->
+    (a_phase x = PhIdle -> a_queue x = [] /\ closed x = false)
+    /\ (a_phase x = PhIdle \/ in_user_code (a_phase x) = true).
+Proof.
+  intros L H a x Hx Hnd. cbn [step] in H. apply check_acc in H. destruct H as [Hst _].
+  unfold stable in Hst. apply andb_true_iff in Hst. destruct Hst as [Hst _]. rewrite forallb_forall in Hst.
+  specialize (Hst _ (L _ _ Hx)). rewrite Hx in Hst. unfold actor_stable in Hst.
+  destruct (a_phase x) eqn:Ep; try discriminate; try (exfalso; apply Hnd; reflexivity).
+  - (* in a callback *) split; [intros E; discriminate E | right; reflexivity].
+  - (* idle *)
+    split; [|left; reflexivity]. intros _.
+    apply andb_true_iff in Hst. destruct Hst as [Hq _].
+    destruct (a_queue x); [|discriminate]. split; [reflexivity|].
+    rewrite Bool.andb_false_r, Bool.orb_false_r in Hq. apply Bool.negb_true_iff in Hq. exact Hq.
+  - split; [intros E; discriminate E | right; reflexivity].
+  - split; [intros E; discriminate E | right; reflexivity].
+Qed.
